@@ -10,6 +10,7 @@ and per-path ExportRecords for completed exports.
 
 from __future__ import annotations
 
+import collections
 import math
 import warnings
 
@@ -49,10 +50,10 @@ RENAMERS = {
 
 OP_WEIGHTS = {
     "new_box": 3, "drop_box": 1, "setitem": 8, "share": 4, "delitem": 2, "copy": 5, "shallow": 4, "rename": 4,
-    "keep": 3, "remove": 3, "lay": 6, "clip": 4, "prepend": 3, "merge": 4, "or": 2, "item_op": 8,
+    "keep": 3, "remove": 3, "lay": 6, "clip": 4, "prepend": 3, "merge": 4, "or": 2, "item_op": 8, "apply": 3,
     "box_read": 4, "export": 12, "import": 10, "slate": 5, "slate_new": 4, "slate_to_box": 5, "slate_rescale": 3, "slate_copy": 2,
 }
-MUTATING = {"setitem", "share", "delitem", "rename", "keep", "remove", "lay", "clip", "prepend", "merge", "item_op", "export",
+MUTATING = {"setitem", "share", "delitem", "rename", "keep", "remove", "lay", "clip", "prepend", "merge", "item_op", "apply", "export",
             "slate_rescale"}
 
 FAULT_KINDS = ("open_enoent", "open_eacces", "open_emfile", "open_enospc", "write_enospc", "write_eio",
@@ -588,6 +589,14 @@ class DataboxWorld(World):
         if by:
             step["out"] = [self._name()]
         return step
+
+    def _gen_apply(self, actor, rng, val, flt):
+        b = self._own_box(rng, actor)
+        if b is None:
+            return None
+        sel = self._gen_selection(rng, list(self.bind[b]))
+        return {"op": "apply", "args": {"box": b, "source": sel, "fn": rng.choice(["shift_in_place", "plus_one"]), "by": rng.choice([-2, -1, 1, 3]),
+                                        "when_fails": rng.choice(["critical", "error", "warning", "silent"])}}
 
     def _gen_or(self, actor, rng, val, flt):
         b = self._any_box(rng, actor)
@@ -1294,6 +1303,73 @@ class DataboxWorld(World):
         self._check_bindings_unchanged(opname, pred, exclude=(h,))
         self._rederive()
         return "ok"
+
+    def _do_apply(self, step, a):
+        """Databox.apply: the function reaches exactly the selected items; in place it works on the very objects,
+        otherwise the results are bound under the same names; the rest of the databox is left alone."""
+        h = a["box"]
+        box = self.boxes[h]
+        bind = self.bind[h]
+        sel = a["source"]
+        names = self.selection_names(sel, list(bind))
+        fn, by = a["fn"], a["by"]
+        want = {n: self._value_exp(x, fresh=False) for n, x in bind.items()}
+        mutable = {}
+        fails = False
+        if fn == "shift_in_place":
+            count = collections.Counter(bind[n][1] for n in names if bind[n][0] == "s")
+            for i, c in count.items():
+                mutable[i] = sm.t_shift_int(self.heap[i][1], by * c)
+                if c > 1:
+                    self.probes["apply_reaches_one_series_under_two_names"] += 1
+            fails = any(bind[n][0] != "s" for n in names)
+            # every name bound to a reached object sees it move, selected or not: it is one object
+            for n, x in bind.items():
+                if x[0] == "s" and x[1] in mutable:
+                    e = mutable[x[1]]
+                    want[n] = ("s", Exp(e.freq, e.nv, e.cells, desc=self.heap[x[1]][1].desc), ("same", x[1]))
+            func = lambda x: x.shift(by)
+            in_place = True
+        else:
+            for n in names:
+                x = bind[n]
+                if x[0] == "s":
+                    e = sm.t_rowwise(self.heap[x[1]][1], lambda d: d + 1)
+                    e.desc = None
+                    want[n] = ("s", e, "fresh")
+                elif isinstance(x[1], (int, float)) and not isinstance(x[1], bool):
+                    want[n] = ("v", x[1] + 1)
+                elif isinstance(x[1], bool):
+                    want[n] = ("v", x[1] + 1)
+                else:
+                    fails = True
+            func = lambda x: x + 1
+            in_place = False
+        opname = "apply." + fn
+        pred = "source:" + sel["k"]
+        status, r, _ = self._run(opname, pred, lambda: box.apply(func, self.selection_real(sel), in_place=in_place, when_fails=a["when_fails"]))
+        if fails:
+            self.probes["apply_function_failed_on_some_item"] += 1
+        if fails and a["when_fails"] in ("critical", "error"):
+            if status == "ok":
+                raise Violation("refine", opname, pred, "", f"the function failed on a selected item but apply(when_fails={a['when_fails']!r}) returned normally")
+            # what a rejected apply leaves behind is open item by item (old or new), never anything else
+            for n, w in list(want.items()):
+                old = self._value_exp(bind[n], fresh=False)
+                if n in box.keys() and w != old:
+                    v = box[n]
+                    if old[0] == "s" and is_series(v) and id(v) == bind[n][1] and snapshot(v) == self.snaps[bind[n][1]]:
+                        want[n] = old
+                        mutable.pop(bind[n][1], None)
+                    elif old[0] == "v" and not is_series(v) and (item_equal(_freeze_value(v), old[1]) or _freeze_value(v) == old[1]):
+                        want[n] = old
+        else:
+            self._crash_guard(opname, pred, status, r)
+        self._expect_box(opname, pred, box, want, what="receiver")
+        self._check_heap(opname, pred, mutable)
+        self._check_bindings_unchanged(opname, pred, exclude=(h,))
+        self._rederive()
+        return "ok" if status == "ok" else "rejected"
 
     def _do_or(self, step, a):
         h, o = a["box"], a["other"]
